@@ -3,8 +3,8 @@
 (* buffers: the receive buffer is really overwritten, the returned buffer is really overwritten.                *)
 EXTENDS CodecLife, Pools
 CONSTANTS MaxOps
-VARIABLES inver, dec, hasdec, srcver, outver, outalias, hasout, encs, prot, ops
-H == INSTANCE HeapLife WITH CopyOnDecode <- TRUE, EncodeFresh <- TRUE, ProtectKeepsPayloads <- TRUE
+VARIABLES inver, dec, hasdec, srcver, outver, outalias, hasout, encs, prot, helds, inlib, ops
+H == INSTANCE HeapLife WITH CopyOnDecode <- TRUE, EncodeFresh <- TRUE, ProtectKeepsPayloads <- TRUE, OutputsDistinct <- TRUE, EncodeLeavesInput <- TRUE
 
 HeapMsgs == << Msg(1, ChainAll), Msg(2, << Rep("SA"), Rep("KE"), Rep("NONCE") >>), Msg(3, << Rep("EAP") >>), Msg(4, << Rep("TSi"), Rep("TSr"), Rep("CP") >>),
                Msg(5, << Rep("IDi"), Rep("CERT"), Rep("CERTREQ"), Rep("AUTH") >>), Msg(1, << Rep("N"), Rep("D"), Rep("V"), Rep("IDr") >>),
@@ -16,7 +16,7 @@ HeapMsgs == << Msg(1, ChainAll), Msg(2, << Rep("SA"), Rep("KE"), Rep("NONCE") >>
                          [k |-> "EAP", eap |-> [code |-> 2, id |-> 8, m |-> "nak", data |-> D(2, 75)]],
                          [k |-> "EAP", eap |-> [code |-> 1, id |-> 8, m |-> "notification", data |-> D(5, 76)]] >>) >>
 
-Code(o) == CASE o = "decode" -> 1 [] o = "unprotect" -> 2 [] o = "scribble_in" -> 3 [] o = "encode" -> 4 [] o = "scribble_out" -> 5 [] o = "protect" -> 6 [] OTHER -> 7
+Code(o) == CASE o = "decode" -> 1 [] o = "unprotect" -> 2 [] o = "scribble_in" -> 3 [] o = "encode" -> 4 [] o = "scribble_out" -> 5 [] o = "protect" -> 6 [] o = "encode_dec" -> 8 [] OTHER -> 7
 RECURSIVE Hash(_)
 Hash(s) == IF Len(s) = 0 THEN Seed ELSE (Hash(Tail(s)) * 7 + Code(Head(s))) % 1009
 MsgOf(s) == HeapMsgs[(Hash(s) % Len(HeapMsgs)) + 1]
@@ -35,14 +35,19 @@ Steps(s, m, decoded) ==
                    [] o = "scribble_in" -> Step("heap_scribble_in", "C20", FALSE, [mode |-> Len(s) % 2], NoCrash)
                    [] o = "encode" -> Step("heap_encode", "C20", FALSE, [x |-> 0],
                                            \* (outside the encodable domain there is no reference encoding, but encoding must still not alter the message)
-                                           IF Encodable(m) THEN [panic |-> FALSE, err |-> FALSE, wire |-> EncMsg(Norm(m)), srcafter |-> Norm(m).payloads, refsout |-> FALSE]
-                                                           ELSE [panic |-> FALSE, srcafter |-> Norm(m).payloads, refsout |-> FALSE])
+                                           IF Encodable(m) THEN [panic |-> FALSE, err |-> FALSE, wire |-> EncMsg(Norm(m)), srcafter |-> Norm(m).payloads, refsout |-> FALSE, heldsame |-> TRUE, insame |-> TRUE]
+                                                           ELSE [panic |-> FALSE, srcafter |-> Norm(m).payloads, refsout |-> FALSE, heldsame |-> TRUE, insame |-> TRUE])
                    [] o = "scribble_out" -> Step("heap_scribble_out", "C20", FALSE, [x |-> 0], NoCrash)
+                   [] o = "encode_dec" ->
+                        LET m2 == [DecMsg(m) EXCEPT !.payloads = << Rep("N") >> \o @] IN
+                        Step("heap_encode_dec", "C20", FALSE, [extra |-> Rep("N")],
+                             IF Encodable(m2) THEN [panic |-> FALSE, err |-> FALSE, wire |-> EncMsg(Norm(m2)), insame |-> TRUE, heldsame |-> TRUE]
+                                              ELSE [panic |-> FALSE, insame |-> TRUE, heldsame |-> TRUE])
                    [] o = "protect" -> Step("heap_protect", "C20", FALSE, [suite |-> (Len(s) % 9) + 1, role |-> (Len(s) % 2 = 0)],
                                             [panic |-> FALSE, err |-> FALSE, srchdr |-> HdrOf(m), orig |-> Norm(m).payloads, held |-> Norm(m).payloads, nsk |-> 1])
                    [] OTHER -> Step("heap_observe", "C20", FALSE, [x |-> 0],
-                                    IF decoded THEN [panic |-> FALSE, dmsg |-> DecMsg(m).payloads, orig |-> Norm(m).payloads, held |-> Norm(m).payloads, srchdr |-> HdrOf(m)]
-                                               ELSE [panic |-> FALSE, orig |-> Norm(m).payloads, held |-> Norm(m).payloads, srchdr |-> HdrOf(m)])
+                                    IF decoded THEN [panic |-> FALSE, dmsg |-> DecMsg(m).payloads, orig |-> Norm(m).payloads, held |-> Norm(m).payloads, srchdr |-> HdrOf(m), heldsame |-> TRUE, insame |-> TRUE]
+                                               ELSE [panic |-> FALSE, orig |-> Norm(m).payloads, held |-> Norm(m).payloads, srchdr |-> HdrOf(m), heldsame |-> TRUE, insame |-> TRUE])
        IN << st >> \o Steps(Tail(s), m, decoded \/ o \in {"decode", "unprotect"})
 
 HeapVector(s) ==
@@ -51,13 +56,13 @@ HeapVector(s) ==
                  \o Steps(s, m, FALSE)
                  \o << Step("heap_observe", "C20", FALSE, [x |-> 0],
                             IF \E i \in 1..Len(s) : s[i] \in {"decode", "unprotect"}
-                              THEN [panic |-> FALSE, dmsg |-> DecMsg(m).payloads, orig |-> Norm(m).payloads, held |-> Norm(m).payloads, srchdr |-> HdrOf(m)]
-                              ELSE [panic |-> FALSE, orig |-> Norm(m).payloads, held |-> Norm(m).payloads, srchdr |-> HdrOf(m)]) >>)
+                              THEN [panic |-> FALSE, dmsg |-> DecMsg(m).payloads, orig |-> Norm(m).payloads, held |-> Norm(m).payloads, srchdr |-> HdrOf(m), heldsame |-> TRUE, insame |-> TRUE]
+                              ELSE [panic |-> FALSE, orig |-> Norm(m).payloads, held |-> Norm(m).payloads, srchdr |-> HdrOf(m), heldsame |-> TRUE, insame |-> TRUE]) >>)
 
 Init == H!Init
 Next == H!Next
 \* only histories that end the exploration (maximal length) or contain a write are worth a replay
-Interesting == Len(ops) = MaxOps \/ (Len(ops) >= 2 /\ ops[Len(ops)] \in {"scribble_in", "scribble_out", "protect"})
+Interesting == Len(ops) = MaxOps \/ (Len(ops) >= 2 /\ ops[Len(ops)] \in {"scribble_in", "scribble_out", "protect", "encode_dec"})
 Emit == Interesting => PrintT(ToJson(HeapVector(ops)))
-Sound == (\A q \in 1..Len(HeapMsgs) : Classify(EncMsg(Norm(HeapMsgs[q]))).class = "value") /\ H!DecodedStable /\ H!EncodePure /\ H!EncodeDeterministic /\ H!ProtectFootprint
+Sound == (\A q \in 1..Len(HeapMsgs) : Classify(EncMsg(Norm(HeapMsgs[q]))).class = "value") /\ H!DecodedStable /\ H!EncodePure /\ H!EncodeDeterministic /\ H!ProtectFootprint /\ H!HeldOutputsIntact /\ H!InputOnlyByCaller
 =============================================================================
